@@ -2,6 +2,7 @@
 """Confirm and record seeded breaking changes under /verif/seeded/<prop>-<n>/.
 Uses a scratch worktree of /repo (never /repo itself): applies the patch there, runs the baseline suite,
 the demonstration (clean and patched) and every registered check with --repo <worktree>."""
+import concurrent.futures as cf
 import json
 import os
 import shutil
@@ -30,59 +31,80 @@ def main():
     man = json.load(open(os.path.join(VERIF, "MANIFEST.json")))
     claimed = [c["property_id"] for c in man["checks"]]
     try:
-        for prop in props:
-            outdir = "/tmp/seed/%s.out" % prop
+        jobs = []  # (property, dest number, patch, demo, summary entry, round)
+        for ident in props:
+            if ident == "--reconfirm":
+                for dname in sorted(os.listdir(os.path.join(VERIF, "seeded"))):
+                    d = os.path.join(VERIF, "seeded", dname)
+                    if os.path.isdir(d):
+                        old = json.load(open(os.path.join(d, "meta.json")))
+                        jobs.append((dname[:3], int(dname.split("-")[1]), os.path.join(d, "patch.diff"), os.path.join(d, "demo.py"), old, old.get("round", 1)))
+                continue
+            prop = ident[:3]
+            rnd = 2 if ident.endswith("b") else 1
+            outdir = "/tmp/seed/%s.out" % ident
             try:
                 summ = {d["n"]: d for d in json.load(open(os.path.join(outdir, "summary.json")))}
             except Exception:
                 summ = {}
-            for n in (1, 2, 3):
+            for n in (1, 2, 3, 4):
                 patch = os.path.join(outdir, "patch_%d.diff" % n)
                 demo = os.path.join(outdir, "demo_%d.py" % n)
-                if not (os.path.exists(patch) and os.path.exists(demo)):
-                    continue
-                sh("git -C %s checkout -- ." % WT)
-                env = {"PYTHONPATH": WT}
-                rc_clean, _ = sh("/venv/bin/python %s" % demo, cwd="/tmp", env=env)
-                rc, out = sh("git -C %s apply --whitespace=nowarn %s" % (WT, patch))
-                if rc != 0:
-                    print(prop, n, "patch does not apply to HEAD:", out[-200:])
-                    continue
-                rc_pat, out_pat = sh("/venv/bin/python %s" % demo, cwd="/tmp", env=env)
-                rc_s, out_s = sh("/venv/bin/python -m pytest -q -p no:cacheprovider tests/test_util.py tests/test_input_output.py tests/test_sonify.py tests/test_hierarchy.py 2>&1 | tail -1", cwd=WT, env=env)
-                sh("git -C %s checkout -- coverage.xml" % WT)
-                fired = {}
-                for p in claimed:
-                    rc, out = sh("./vcheck %s --repo %s" % (p, WT), cwd=VERIF)
+                if os.path.exists(patch) and os.path.exists(demo):
+                    jobs.append((prop, n if rnd == 1 else 3 + n, patch, demo, summ.get(n, {}), rnd))
+        for prop, num, patch, demo, summ_n, rnd in jobs:
+            sh("git -C %s checkout -- ." % WT)
+            env = {"PYTHONPATH": WT}
+            rc_clean, _ = sh("/venv/bin/python %s" % demo, cwd="/tmp", env=env)
+            rc, out = sh("git -C %s apply --whitespace=nowarn %s" % (WT, patch))
+            if rc != 0:
+                print(prop, num, "patch does not apply to HEAD:", out[-200:])
+                continue
+            rc_pat, out_pat = sh("/venv/bin/python %s" % demo, cwd="/tmp", env=env)
+            rc_s, out_s = sh("/venv/bin/python -m pytest -q -p no:cacheprovider tests/test_util.py tests/test_input_output.py tests/test_sonify.py tests/test_hierarchy.py 2>&1 | tail -1", cwd=WT, env=env)
+            sh("git -C %s checkout -- coverage.xml" % WT)
+
+            def one(p):
+                rc, out = sh("./vcheck %s --repo %s --no-evidence" % (p, WT), cwd=VERIF)
+                return p, rc, out
+
+            fired = {}
+            with cf.ThreadPoolExecutor(10) as ex:
+                for p, rc, out in ex.map(one, claimed):
                     if rc != 0:
                         fired[p] = {"exit": rc, "findings": sorted({l.strip().split(" at ")[0].replace("rule=", "") for l in out.split("\n") if l.startswith("  rule=")})[:6]}
-                sh("git -C %s checkout -- ." % WT)
-                ok = rc_clean == 0 and rc_pat != 0 and "65 passed" in out_s and "4 failed" in out_s
-                d = os.path.join(VERIF, "seeded", "%s-%d" % (prop, n))
-                meta = {
-                    "property": prop,
-                    "base_commit": head,
-                    "files": summ.get(n, {}).get("files"),
-                    "what_changed": summ.get(n, {}).get("what_changed"),
-                    "why_it_breaks_the_property": summ.get(n, {}).get("why_it_breaks_the_property"),
-                    "needs_to_manifest": summ.get(n, {}).get("needs_to_manifest"),
-                    "confirmed": {
-                        "how": "scratch worktree of /repo at %s: demo on clean tree, patch applied, demo again, baseline suite (tests/test_util.py test_input_output.py test_sonify.py test_hierarchy.py), then every registered check with --repo <worktree>; the same patches were also applied to /repo itself with git apply / git checkout -- . and the checks run there" % head,
-                        "demo_clean_exit": rc_clean,
-                        "demo_patched_exit": rc_pat,
-                        "demo_patched_last_line": out_pat.strip().split("\n")[-1][:300],
-                        "suite_with_patch": out_s.strip()[-100:],
-                    },
-                    "checks_that_fire": fired,
-                    "caught_by_target_property": prop in fired and fired[prop]["exit"] == 1,
-                    "caught_by_any": any(v["exit"] == 1 for v in fired.values()),
-                }
-                print(prop, n, "confirmed" if ok else "NOT-CONFIRMED", "target" if meta["caught_by_target_property"] else "", sorted(fired))
-                if ok:
-                    os.makedirs(d, exist_ok=True)
+            sh("git -C %s checkout -- ." % WT)
+            ok = rc_clean == 0 and rc_pat != 0 and "65 passed" in out_s and "4 failed" in out_s
+            d = os.path.join(VERIF, "seeded", "%s-%d" % (prop, num))
+            meta = {
+                "property": prop,
+                "round": rnd,
+                "base_commit": head,
+                "files": summ_n.get("files"),
+                "what_changed": summ_n.get("what_changed"),
+                "why_it_breaks_the_property": summ_n.get("why_it_breaks_the_property"),
+                "needs_to_manifest": summ_n.get("needs_to_manifest"),
+                "confirmed": {
+                    "how": "scratch worktree of /repo at %s: demo on clean tree, patch applied, demo again, baseline suite (tests/test_util.py test_input_output.py test_sonify.py test_hierarchy.py), then every registered check with --repo <worktree> --no-evidence" % head,
+                    "demo_clean_exit": rc_clean,
+                    "demo_patched_exit": rc_pat,
+                    "demo_patched_last_line": out_pat.strip().split("\n")[-1][:300],
+                    "suite_with_patch": out_s.strip()[-100:],
+                },
+                "checks_that_fire": fired,
+                "caught_by_target_property": prop in fired and fired[prop]["exit"] == 1,
+                "caught_by_any": any(v["exit"] == 1 for v in fired.values()),
+            }
+            print(prop, num, "confirmed" if ok else "NOT-CONFIRMED clean=%s patched=%s suite=%s" % (rc_clean, rc_pat, out_s.strip()[-60:]), "target" if meta["caught_by_target_property"] else "", sorted(fired))
+            sys.stdout.flush()
+            if ok:
+                os.makedirs(d, exist_ok=True)
+                if os.path.abspath(patch) != os.path.abspath(os.path.join(d, "patch.diff")):
                     shutil.copy(patch, os.path.join(d, "patch.diff"))
                     shutil.copy(demo, os.path.join(d, "demo.py"))
-                    json.dump(meta, open(os.path.join(d, "meta.json"), "w"), indent=1)
+                json.dump(meta, open(os.path.join(d, "meta.json"), "w"), indent=1)
+            elif os.path.abspath(patch) == os.path.abspath(os.path.join(d, "patch.diff")):
+                print("   (existing seed %s-%d no longer confirmed on this HEAD)" % (prop, num))
     finally:
         sh("git -C /repo worktree remove --force %s" % WT)
 
